@@ -204,6 +204,20 @@ void gen_c06(Gen &g) {
     p.tasks.push_back(t);
     return;
   }
+  if (r.chance(1, 40)) {
+    // a long program (several growth quanta on a library-managed buffer), in one call or in a few pieces
+    Task t;
+    bool internal = r.chance(3, 4);
+    int nl = (int)r.range(1300, g.thorough ? 6000 : 3200);
+    std::vector<std::string> prog = gen_program(r, nl, r.coin() ? 10 : 0, -1);
+    t.ops.push_back(mk_create(g, 0, internal ? -1 : 15L * nl + 4096));
+    int o = r.coin() ? opt_index(2, 1, 1) : (int)r.below(12);
+    if (o != opt_index(2, 1, 1)) emit_opts(g, t, 0, o / 4, (o / 2) & 1, o & 1);
+    unsigned sp = (unsigned)r.below(3);
+    emit_split(g, t, 0, prog, sp == 0 ? 0 : 1, sp == 1 ? (int)r.range(300, 2000) : 40);
+    p.tasks.push_back(t);
+    return;
+  }
   int ntasks = 1 + (r.chance(1, 3) ? 1 : 0);
   for (int ti = 0; ti < ntasks; ti++) {
     Task t;
@@ -259,7 +273,8 @@ struct HistCfg {
   int reject_pct = 15;
 };
 
-long pick_chunk(Rng &r, const HistCfg &c) {
+long pick_chunk(Rng &r, const HistCfg &c, long last = 0) {
+  if (last >= 2 && r.chance(1, 4)) return last;  // the same size again, e.g. after fitting was switched off
   unsigned w = (unsigned)r.below(100);
   if (w < 8) return (long)r.range(-1, 1);  // switches fitting off
   if (w < 75 || c.c_sparse_hi <= c.c_dense_hi) return r.range(2, c.c_dense_hi);
@@ -269,6 +284,7 @@ long pick_chunk(Rng &r, const HistCfg &c) {
 void gen_history_task(Gen &g, Task &t, const HistCfg &cfg) {
   Rng &r = g.r;
   GInst gi[2];
+  long last_c[2] = {0, 0};
   auto create = [&](int slot) {
     bool internal = cfg.allow_internal && r.chance(1, 5);
     long n = internal ? -1 : r.range(cfg.n_lo, cfg.n_hi);
@@ -279,6 +295,7 @@ void gen_history_task(Gen &g, Task &t, const HistCfg &cfg) {
   if (cfg.fit_bias && (int)r.below(100) < cfg.fit_bias) {
     Op o = g.mk(OP_CHUNK, 0);
     o.c = pick_chunk(r, cfg);
+    if (o.c >= 2) last_c[0] = o.c;
     t.ops.push_back(o);
     gi[0].m.apply_chunk(o.c);
     Op so = g.mk(OP_OFFSET, 0);
@@ -382,7 +399,8 @@ void gen_history_task(Gen &g, Task &t, const HistCfg &cfg) {
     }
     if ((w -= cfg.w_chunk) < 0) {
       Op o = g.mk(OP_CHUNK, slot);
-      o.c = pick_chunk(r, cfg);
+      o.c = pick_chunk(r, cfg, last_c[slot]);
+      if (o.c >= 2) last_c[slot] = o.c;
       t.ops.push_back(o);
       m.apply_chunk(o.c);
       continue;
